@@ -161,6 +161,9 @@ pub struct RawSpec {
     pub pb: u32,
     pub dict: u32,
     pub size: Option<u64>,
+    /// Some(n): the decoder is constructed for size Some(n) and then told the real
+    /// size through reset(Some(size)) before the decode (a reused decoder object)
+    pub pre: Option<u64>,
 }
 
 impl RawSpec {
@@ -172,6 +175,9 @@ impl RawSpec {
         if let Some(s) = self.size {
             sc.set_i("raw_size", s);
         }
+        if let Some(s) = self.pre {
+            sc.set_i("raw_pre", s);
+        }
     }
     pub fn load(sc: &Scenario) -> RawSpec {
         RawSpec {
@@ -180,6 +186,7 @@ impl RawSpec {
             pb: sc.i("raw_pb") as u32,
             dict: sc.i("raw_dict") as u32,
             size: sc.opt_i("raw_size"),
+            pre: sc.opt_i("raw_pre"),
         }
     }
 }
@@ -222,9 +229,12 @@ pub fn call_decoder<R: BufRead, W: Write>(
                         pb: raw.pb,
                     },
                     raw.dict,
-                    raw.size,
+                    if raw.pre.is_some() { raw.pre } else { raw.size },
                 );
                 let mut d = LzmaDecoder::new(params, opts.memlimit).map_err(errstr)?;
+                if raw.pre.is_some() {
+                    d.reset(Some(raw.size));
+                }
                 let res = d.decompress(r, w).map_err(errstr);
                 // Debug output is exercised (must not panic) but not metered as decoding
                 // memory; only for small literal tables (it prints every probability)
